@@ -611,6 +611,23 @@ func (e *lbEngine) run(in *lbInst, entry *lstate) []lbRet {
 				restrict = emptyState()
 			}
 		}
+		if restrict != nil {
+			// widening with thresholds: the bounds the loop itself tests (`i < len(ps)`, `j < n`) are kept when every
+			// incoming state satisfies them in their non-strict form — a loop over a slice of constant length is not
+			// unrolled past the widening point with its bound forgotten
+			for _, c := range e.loopThresholds(in, fn, b) {
+				holds := true
+				for _, s := range ins {
+					if s != nil && !s.proves(e.at, lfact{l: c}) {
+						holds = false
+						break
+					}
+				}
+				if holds {
+					restrict = restrict.with(lfact{l: c})
+				}
+			}
+		}
 		res := joinLin(e.at, ins, zeros, restrict)
 		if !hasBack {
 			res = res.prune(e.at) // only loop heads keep redundant facts (they may be what survives the next iteration)
@@ -2304,6 +2321,41 @@ func (e *lbEngine) recordsTrivia(fn *ssa.Function) bool {
 		}
 	}
 	return false
+}
+
+// loopThresholds: for the natural loop headed at b, the comparisons between linear terms that its blocks branch on, each
+// as the non-strict inequality both of its sides can live with (a < b and a <= b give b - a >= 0).
+func (e *lbEngine) loopThresholds(in *lbInst, fn *ssa.Function, header *ssa.BasicBlock) []lin {
+	var out []lin
+	for _, l := range e.loopsOf(fn) {
+		if l.header != header {
+			continue
+		}
+		for bb := range l.body {
+			iff, ok := bb.Instrs[len(bb.Instrs)-1].(*ssa.If)
+			if !ok {
+				continue
+			}
+			bo, ok := iff.Cond.(*ssa.BinOp)
+			if !ok || !isIntType(bo.X.Type()) {
+				continue
+			}
+			a, ok1 := e.linear(in, bo.X)
+			c, ok2 := e.linear(in, bo.Y)
+			if !ok1 || !ok2 {
+				continue
+			}
+			switch bo.Op {
+			case token.LSS, token.LEQ:
+				out = append(out, c.sub(a))
+			case token.GTR, token.GEQ:
+				out = append(out, a.sub(c))
+			case token.NEQ, token.EQL:
+				out = append(out, c.sub(a), a.sub(c))
+			}
+		}
+	}
+	return out
 }
 
 func (e *lbEngine) inScope(fn *ssa.Function) bool {
